@@ -9,6 +9,7 @@ import (
 	"net/http/httptest"
 	"net/url"
 	"reflect"
+	"strconv"
 	"strings"
 	"testing/iotest"
 
@@ -93,6 +94,15 @@ func renderReplay(s *Summary, raw json.RawMessage) {
 			continue
 		}
 		renderHelper(s, &c, v, "")
+		if c.H == "HTTPError" {
+			// the failure path of a handler that had already announced the size of the answer it meant to give: the error
+			// message is what the client gets, whole (net/http enforces an announced length)
+			for _, n := range []string{"57", "0", "3"} {
+				renderAnnounce = n
+				renderHelper(s, &c, v, "")
+				renderAnnounce = ""
+			}
+		}
 	}
 	if c.V == "struct" && !c.Preset && c.Status == 200 {
 		renderOdd(s, &c)
@@ -179,6 +189,9 @@ func asBytes(v any) []byte {
 	return nil
 }
 
+// renderAnnounce: a Content-Length the handler sets before it calls the helper ("" = none)
+var renderAnnounce string
+
 func renderHelper(s *Summary, c *renderCase, v any, presetText string) {
 	var retErr error
 	var ctxErrs []error
@@ -186,6 +199,9 @@ func renderHelper(s *Summary, c *renderCase, v any, presetText string) {
 	r.GET("/r", func(cx *rux.Context) {
 		if c.Preset {
 			cx.SetHeader("Content-Type", presetText)
+		}
+		if renderAnnounce != "" {
+			cx.SetHeader("Content-Length", renderAnnounce)
 		}
 		switch c.H {
 		case "Text":
@@ -271,6 +287,10 @@ func renderHelper(s *Summary, c *renderCase, v any, presetText string) {
 		return
 	}
 	body := w.Body.Bytes()
+	if cl := w.Header().Get("Content-Length"); cl != "" && cl != strconv.Itoa(len(body)) && c.Predict.Body != "redirect" {
+		s.mismatch(desc("body", fmt.Sprintf("the response announces Content-Length %s (set by the handler before the helper: %q) and carries %d bytes: a server cuts it or drops the connection", cl, renderAnnounce, len(body))), c)
+		return
+	}
 	same := func(got any) bool { return reflect.DeepEqual(got, v) }
 	decodeJSON := func(bs []byte) bool {
 		switch v.(type) {
